@@ -181,7 +181,7 @@ def calls_for(r, X, Y, Zt, Zd):
             for op in ("generalized_affine_image", "generalized_affine_preimage"):
                 if r.random() < 0.5: add(op, "%s %d %s %d %s" % (op, v, rel, den, ex), "%s %d %s %d %d" % (op, v, rel, e, d0))
     # bounded images: variable, lower bound, upper bound, denominator falsified alone and in pairs
-    for (v, lb, ub, den) in itertools.product((max(n - 1, 0), n), (n, n + 1), (n, n + 2), (1, 0)):
+    for (v, lb, ub, den) in itertools.product((max(n - 1, 0), n), (n, n + 1), (n, n + 1), (1, 0)):      # boundary values: one past the space dimension
         bad = (v >= n) + (lb > n) + (ub > n) + (den == 0)
         if bad == 0 or bad > 2: continue
         lx = expr_text(lb, r.randint(-2, 2), [r.randint(-2, 2) for _ in range(lb)]); ux = expr_text(ub, 1, [1] * ub)
